@@ -569,3 +569,17 @@ def suite_detect(ctx):
                 bad.append(('C09', 'detect-lang', 'reported language %s, the only recognising language is %d' % (op.kv('lang'), rec[0]), [op.head]))
         return bad
     return Suite('detect', s, oracles=[oracle], note='polyseed_phrase_decode on 16-token lists: single language, all-common words (Chinese lists share 1275), one foreign/empty/garbage token')
+
+
+# ---------------------------------------------------------------- S-tables (translator cross-check)
+
+def suite_tables(ctx):
+    """every word, name and flag-dependent behaviour of every language as the REAL code has it vs the regenerated Lean tables:
+    the tables the theorems talk about are the tables the code uses"""
+    Ls = ctx.langs
+    s = ['numlangs']
+    for li in range(Ls.n + 1):
+        s.append('langname %d' % li)
+        for wi in range(2048):
+            s.append('word %d %d' % (li, wi))
+    return Suite('tables', s, note='all 20480 words and the language names read from the real library (polyseed_get_lang) vs Gen/*.lean', exhaustive=True)
